@@ -100,6 +100,18 @@ def execute_cov(rec, focus):
     viol = []
     obs = []
 
+    def rebaseline(it):
+        for (ref, m) in ((it.ref, it.obj.get_model()), (types[it.tkey], it.obj.get_model().type_cg)):
+            rm = covworld.read_model(m)
+            for n in ref.cp_order:
+                ref.cps[n].hits = list(rm["cps"][n]["hits"])
+                ref.cps[n].ign_hits = list(rm["cps"][n]["ign"])
+                ref.cps[n].ill_hits = list(rm["cps"][n]["ill"])
+            for cr in ref.crosses:
+                cr.hits = list(rm["crosses"][cr.name]["hits"])
+        # other instances of the same type are unaffected; their sums stay consistent because the
+        # type reference now equals the implementation's type counters
+
     def struct_all(where):
         for k, it in enumerate(insts):
             stats["struct_checks"] += 1
@@ -389,7 +401,25 @@ def execute_cov(rec, focus):
                 it = insts[op["i"]]
                 cgd = cgdefs[it.cls]
                 vals = op["vals"]
-                env.sample(cgd, it.obj, vals)
+                if op.get("fault"):
+                    # a user callable (coverpoint target / iff) raises during this sample
+                    env.raise_in = op["fault"]
+                    try:
+                        env.sample(cgd, it.obj, vals)
+                        raised = False
+                    except covworld.CovFault:
+                        raised = True
+                    env.raise_in = None
+                    if raised:
+                        stats["faults_fired"]["cb_raise"] = stats["faults_fired"].get("cb_raise", 0) + 1
+                        # what the aborted sample counted is unspecified: re-baseline the reference
+                        # from the implementation; every later sample must again count exactly
+                        rebaseline(it)
+                        obs.append((oi, "sample_fault"))
+                        continue
+                    obs.append((oi, "sample_fault_not_reached"))
+                else:
+                    env.sample(cgd, it.obj, vals)
                 before = it.ref.snapshot()
                 it.ref.sample(vals)
                 # type data = bin-wise sum of the hits of its instances (instances of one
